@@ -218,7 +218,13 @@ def h_fill(e, repl, ways, kind, op):
         e.claim = saved
 
 
-HARNESSES = {"lru": h_lru, "lru_repr": h_lru_repr, "plru": h_plru, "crosshair": h_crosshair, "fill": h_fill}
+def h_deep(e, **kw):
+    from checks import cachestep
+
+    return cachestep.h_deep(e, **kw)
+
+
+HARNESSES = {"lru": h_lru, "lru_repr": h_lru_repr, "plru": h_plru, "crosshair": h_crosshair, "fill": h_fill, "deep": h_deep}
 
 
 def jobs(tier, seed):
@@ -235,6 +241,9 @@ def jobs(tier, seed):
         for ways in (2, 4):
             for kind, op in (("wb", "read"), ("wb", "write"), ("wt", "read")):
                 out.append({"label": "fill-%s-%d-%s-%s" % (repl, ways, kind, op), "harness": "fill", "args": {"repl": repl, "ways": ways, "kind": kind, "op": op}, "cost": ways**3, "validate_every": 3, "timeout_ms": 20000})
+    from checks import cachestep
+
+    out += cachestep.deep_jobs(tier, {"C10"}, "checks.c10")
     return out
 
 
